@@ -5,7 +5,7 @@ CONSTANTS
   Versions = {0, 1}
   Rpcs = {1, 2}
   Slots = {1}
-  MaxOps = 4
+  MaxOps = 6
   EnvRedeliver = TRUE
   EnvDamage = TRUE
   EnvCaches = TRUE
